@@ -427,6 +427,26 @@ Definition size_ok (h : header) (payload : list Z) : bool :=
   | None => true
   end.
 
+(** What decoding [encode_packet h payload ++ trailing] must return. Headers with a Length field
+    are split exactly at the end of the encoded packet; the others extend to the end of the
+    datagram. The reserved-bits flag is irrelevant for Version Negotiation (no such bits). *)
+Definition reserved_expected (h : header) : bool :=
+  match h with
+  | HVN r _ _ => ((128 + r) / 4) mod 4 =? 0
+  | _ => true
+  end.
+
+Definition pnl_of (h : header) : Z :=
+  match pn_of h with Some (n, _) => Z.of_nat n | None => 0 end.
+
+Definition expected_decode (h : header) (hl : Z) (pk payload trailing : list Z) : dres :=
+  if has_length h then
+    DOk (zlen pk) (if zlen trailing =? 0 then -1 else zlen trailing) (pnl_of h + zlen payload)
+        hl (zlen payload) true h
+  else
+    DOk (zlen pk + zlen trailing) (-1) (-1) hl (zlen payload + zlen trailing)
+        (reserved_expected h) h.
+
 Definition oracle_step (op out : list Z) : bool :=
   match op with
   | 2 :: tl =>
@@ -440,20 +460,7 @@ Definition oracle_step (op out : list Z) : bool :=
                   | Some h =>
                       if wf_header lcl grease versions h && size_ok h payload then
                         match encode_packet h payload with
-                        | Some (hl, b) =>
-                            let rok := match h with
-                                       | HVN r _ _ => b2z (((128 + r) / 4) mod 4 =? 0)
-                                       | _ => 1
-                                       end in
-                            if has_length h then
-                              lz_eqb out
-                                ([0; zlen b; (if zlen trailing =? 0 then -1 else zlen trailing);
-                                  zlen b - (hl - Z.of_nat (match pn_of h with Some (n, _) => n | None => O end));
-                                  hl; zlen payload; rok] ++ render_header h)
-                            else
-                              lz_eqb out
-                                ([0; zlen b + zlen trailing; -1; -1; hl; zlen payload + zlen trailing; rok]
-                                   ++ render_header h)
+                        | Some (hl, b) => lz_eqb out (render (expected_decode h hl b payload trailing))
                         | None => false
                         end
                       else true
